@@ -99,39 +99,29 @@ def r2_eq_hash(ctx, res):
 
 
 def r3_translate_guard(ctx, res):
-    f = ctx.repo.func('_core', 'Synset.translate')
-    key = 'translate-guard'
-    body = [s for s in f.node.body if not (isinstance(s, ast.Expr) and isinstance(s.value, ast.Constant))]
-    src = [norm(s) for s in body]
-    res.inst(key, f.module.loc(f.node), f'{src[:3]}')
-    ok = len(body) >= 3 and src[0] == 'ili = self._ili' and isinstance(body[1], ast.If) and norm(body[1].test) == 'not ili' \
-        and norm(body[1].body[-1]) == 'return []' and src[2] == 'return synsets(ili=ili, lang=lang, lexicon=lexicon)'
-    if not ok:
-        res.find(key, f.module.loc(f.node), 'Synset.translate no longer returns [] for a synset without an ILI id before looking up '
-                                            'synsets(ili=...): a synset with no / a proposed ILI would translate to every synset')
-    st = ctx.repo.func('_core', 'Sense.translate')
-    key = 'sense-translate-via-synset'
-    s2 = Frag(st.node)
-    res.inst(key, st.module.loc(st.node), 'via self.synset().translate(...) and t_synset.senses()')
-    if 'synset = self.synset()' not in s2 or 'synset.translate(lang=lang, lexicon=lexicon)' not in s2 or 't_synset.senses()' not in s2:
-        res.find(key, st.module.loc(st.node), 'Sense.translate is no longer the image of Synset.translate')
-    wt = ctx.repo.func('_core', 'Word.translate')
-    key = 'word-translate-via-senses'
-    s3 = Frag(wt.node)
-    res.inst(key, wt.module.loc(wt.node), 'via sense.translate(...) and t_sense.word()')
-    if 'sense.translate(lang=lang, lexicon=lexicon)' not in s3 or 't_sense.word()' not in s3:
-        res.find(key, wt.module.loc(wt.node), 'Word.translate is no longer the image of Sense.translate')
+    from ..speccheck import view, expect
+    expect(res, 'translate-guard', view(ctx, '_core', 'Synset.translate'), [
+        ('return', '[]', ('not self._ili',), (), 'exact'),
+        ('return', 'synsets(ili=self._ili, lang=lang, lexicon=lexicon)', ('self._ili',), (), 'exact'),
+    ], 'Synset.translate returns [] for a synset without an ILI id before looking up synsets(ili=...): a synset with no / a proposed ILI '
+       'would otherwise translate to every synset')
+    expect(res, 'sense-translate-via-synset', view(ctx, '_core', 'Sense.translate'), [
+        ('call', '#1.append($2)', (), ('for self.synset().translate(lang=lang, lexicon=lexicon)', 'for $1.senses()'), 'exact'),
+        ('return', '#1'),
+    ], 'Sense.translate is the image of Synset.translate: the senses of the translated synsets, in order')
+    expect(res, 'word-translate-via-senses', view(ctx, '_core', 'Word.translate'), [
+        ('store', '#1[$1] = [_1.word() for _1 in $1.translate(lang=lang, lexicon=lexicon)]', (), ('for self.senses()',), 'exact'),
+        ('return', '#1'),
+    ], 'Word.translate maps every sense of the word to the words of its translated senses')
 
 
 def r4_inverse_navigation(ctx, res):
+    from ..speccheck import view, expect
     for mname, q in (('Word.senses', 'get_entry_senses'), ('Synset.senses', 'get_synset_members')):
-        f = ctx.repo.func('_core', mname)
-        key = f'inverse:{mname}'
-        s = Frag(f.node)
-        res.inst(key, f.module.loc(f.node), f'{q}(self._id, self._get_lexicon_ids())')
-        if f'{q}(self._id, lexids)' not in s or 'lexids = self._get_lexicon_ids()' not in s \
-                or 'Sense(*sense_data, _wordnet=self._wordnet)' not in s:
-            res.find(key, f.module.loc(f.node), f'{mname} no longer lists the senses attached to its own rowid within its element scope')
+        expect(res, f'inverse:{mname}', view(ctx, '_core', mname), [
+            ('call', '#1.append(Sense(*$1, _wordnet=self._wordnet))', (), (f'for {q}(self._id, self._get_lexicon_ids())',), 'exact'),
+            ('return', '#1'),
+        ], f'{mname} lists the senses attached to its own rowid within its element scope')
     gs = ctx.repo.func('_queries', '_get_senses')
     for site in ctx.sites_of(gs.key):
         for v in site.variants:
@@ -163,26 +153,15 @@ IMAGES = [
 
 
 def r6_images(ctx, res):
-    """word.synsets(), synset.words() and synset.lemmas() are the in-order images of the sense (word) lists: a plain list
-    comprehension over the list - no filter, no de-duplication, no re-ordering."""
+    """word.synsets(), synset.words() and synset.lemmas() are the in-order images of the sense (word) lists: one element
+    appended per element of the list - no filter, no de-duplication, no re-ordering."""
+    from ..speccheck import view, expect
     for mname, src, meth in IMAGES:
-        f = ctx.repo.func('_core', mname)
-        key = f'image:{mname}'
-        rets = [n for n in walk_no_nested(f.node) if isinstance(n, ast.Return) and n.value is not None]
-        res.inst(key, f.module.loc(f.node), norm(rets[0].value) if rets else 'no return')
-        ok = False
-        if len(rets) == 1 and isinstance(rets[0].value, ast.ListComp):
-            lc = rets[0].value
-            if len(lc.generators) == 1 and not lc.generators[0].ifs and norm(lc.generators[0].iter) == src \
-                    and isinstance(lc.generators[0].target, ast.Name) and isinstance(lc.elt, ast.Call) and not lc.elt.args \
-                    and isinstance(lc.elt.func, ast.Attribute) and lc.elt.func.attr == meth \
-                    and isinstance(lc.elt.func.value, ast.Name) and lc.elt.func.value.id == lc.generators[0].target.id:
-                ok = True
-        if not ok:
-            res.find(key, f.module.loc(f.node),
-                     f'{mname} is no longer `[x.{meth}() for x in {src}]` (found `{norm(rets[0].value)[:80] if rets else None}`): the result '
-                     f'must be the image of that list in order, element by element (a de-duplicated, filtered or re-ordered list '
-                     f'disagrees with the inverse navigation when one word has two senses in a synset)')
+        expect(res, f'image:{mname}', view(ctx, '_core', mname), [
+            ('call', f'#1.append($1.{meth}())', (), (f'for {src}',), 'exact'),
+            ('return', '#1'),
+        ], f'{mname} is the image of {src} under .{meth}(), element by element and in order (a de-duplicated, filtered or re-ordered list '
+           f'disagrees with the inverse navigation when one word has two senses in a synset)')
 
 
 RULES = [
